@@ -494,7 +494,7 @@ func runFS(ep *entryPoint, spec treeSpec, mode string, k int64, wantFinal bool) 
 
 // The bound on backend operations after the end of the context: a constant, whatever the tree.  The longest
 // check-free stretch of the current code is RemoveWithContext on a directory (Exists, IsDir, IsEmpty, IsEmpty:
-// 38 primitive operations before the test at files.go:743, 54 when reached from the end of moveFile/moveFolder).
+// 39 primitive operations before its context test on /repo HEAD (38 before the Lstat link block was added), 55 when reached from the end of moveFile/moveFolder).
 const opsAfterBound = 80
 
 type failure struct {
